@@ -612,11 +612,14 @@ func (f *File) Sync() error {
 	return nil
 }
 
-// RunCrash runs fn and reports whether it was stopped by a crash point.
-func RunCrash(fn func()) (crashed bool) {
+// RunCrash runs fn and reports whether it was stopped by a crash point of rec.
+// Once the crash point has fired (rec is frozen) any further panic raised while
+// the stack unwinds (deferred clean-up running on half-written state) belongs
+// to the simulated process stop as well.
+func RunCrash(rec *Rec, fn func()) (crashed bool) {
 	defer func() {
 		if r := recover(); r != nil {
-			if _, ok := r.(Crash); ok {
+			if _, ok := r.(Crash); ok || rec.Frozen() {
 				crashed = true
 				return
 			}
@@ -624,5 +627,5 @@ func RunCrash(fn func()) (crashed bool) {
 		}
 	}()
 	fn()
-	return false
+	return rec.Frozen()
 }
